@@ -50,7 +50,8 @@ def entry_sizes(b, J):
 
 
 class JournalModel(object):
-    def __init__(self, depth, crash=True, crash_continue=0):
+    def __init__(self, depth, crash=True, crash_continue=0, first=None):
+        self.first = first        # explore only the subtree below this first operation (parallel split)
         self.J = vfs.install_journal()
         self.depth = depth
         self.crash = crash
@@ -63,6 +64,12 @@ class JournalModel(object):
         vfs.activate(b.vfs)
         b.vfs.begin_step()
         b.j = self.J.FileJournal(PATH)
+        if self.first is not None:
+            f, self.first = self.first, None
+            try:
+                b = self.apply(b, tuple(f))
+            finally:
+                self.first = f
         return b
 
     def events(self, b):
@@ -219,8 +226,8 @@ class JournalModel(object):
         return None
 
 
-def job(name, depth, crash):
-    m = JournalModel(depth, crash=crash)
+def job(name, depth, crash, first=None):
+    m = JournalModel(depth, crash=crash, first=first)
     res = core.bfs(m, name=name, known=core.KnownFindings(), prop='C08')
     res.extra['crash_points'] = m.crash_points
     res.extra['clean_reopens'] = m.reopens
@@ -297,8 +304,17 @@ def main(tier, seed, job_filter=None):
                       assumptions=['process-kill crash model: mutations handed to the OS survive, Python-level file buffers do not; no torn single stores, no reordering (the property speaks of kills, not power loss)',
                                    'simulated mmap/open/rename validated against real files on all sequences up to depth 3 (quick) / 4 (thorough)'])
     d = 4 if tier == 'quick' else 6
-    jobs = [(job, dict(name='journal:depth%d:crash' % d, depth=d, crash=True)),
-            (job, dict(name='journal:depth%d:nocrash' % (d + 1), depth=d + 1, crash=False)),
+    if tier == 'quick':
+        jobs = [(job, dict(name='journal:depth%d:crash' % d, depth=d, crash=True)),
+                (job, dict(name='journal:depth%d:nocrash' % (d + 1), depth=d + 1, crash=False))]
+    else:
+        # split by the first operation so that all cores are used
+        m0 = JournalModel(1, crash=False)
+        firsts = m0.events(m0.initial())
+        jobs = [(job, dict(name='journal:depth%d:crash:first=%s' % (d, '-'.join(map(str, f))), depth=d, crash=True, first=list(f))) for f in firsts]
+        jobs += [(job, dict(name='journal:depth%d:nocrash:first=%s' % (d + 1, '-'.join(map(str, f))), depth=d + 1, crash=False, first=list(f)))
+                 for f in firsts]
+    jobs += [
             (conformance_job, dict(name='vfs-conformance:depth%d' % (2 if tier == 'quick' else 3), depth=2 if tier == 'quick' else 3))]
     if job_filter:
         jobs = [j for j in jobs if job_filter in j[1]['name']]
@@ -310,7 +326,12 @@ def main(tier, seed, job_filter=None):
 
 def replay_trace(jobname, trace):
     parts = jobname.split(':')
-    m = JournalModel(99, crash=(parts[-1] == 'crash'))
+    first = None
+    if parts[-1].startswith('first='):
+        f = parts[-1][len('first='):].split('-')
+        first = [f[0]] + [int(x) for x in f[1:]]
+        parts = parts[:-1]
+    m = JournalModel(99, crash=(parts[-1] == 'crash'), first=first)
     msg, _ = core.replay(m, [tuple(e) for e in trace])
     return msg
 
